@@ -368,7 +368,7 @@ pub open spec fn aa_run(r: Reference, vt: Option<Poisonable<ValueType>>, av: Opt
 	let symbol = match member { Some(m) => m, None => base };
 	let full = build_spec(vt, s2.0, false);
 	let put1 = put_spec(a2.symbols, base, full);
-	let put2 = if put1.1 is Ok && member is Some { put_spec(put1.0, member->Some_0, vt) } else { put1 };
+	let put2 = if put1.1 is Ok && member is Some { put_spec(put1.0, member->Some_0, build_spec(vt, steps_below_member(s2.0), false)) } else { put1 };
 	AaRun { steps1: f.0, a1: f.1, steps2: s2.0, excess: s2.1, a2, member, full, put1, put2,
 		address_error: address_error_spec(r, base, vt, av, valid_declaration_spec(a2.symbols, symbol), s2.1) }
 }
@@ -393,6 +393,7 @@ pub open spec fn aa_obligations(r: Reference, vt: Option<Poisonable<ValueType>>,
 	&&& r.base is Ok ==> {
 		let run = aa_run(r, vt, av, a);
 		&&& opt_wf(run.full)                                       // assert!(vt.is_wellformed()) in do_update_symbol
+		&&& run.member is Some ==> opt_wf(build_spec(vt, steps_below_member(run.steps2), false))     // the same assert!, member put
 		&&& run.address_error is Some && run.address_error->Some_0 is MismatchedAddressInAssignment
 			==> value_type::wf(run.address_error->Some_0->MismatchedAddressInAssignment_assignee_type)     // assert!(assignee_type.is_wellformed())
 	}
@@ -425,4 +426,17 @@ pub open spec fn decl_mismatch_is_E504(n: Identifier, r: DeclRun, out: Option<Po
 			location: eloc(r.e1),
 			previous: r.a3.symbols[n.resolution_id].identifier.location,
 		})))
+}
+
+// ---- the member found by `iter().rev().find_map(get_member)` sits at the index found by `iter().rposition(is member)` ----
+pub proof fn lemma_last_member_char(steps: Seq<ReferenceStep>, n: int)
+	requires 0 <= n <= steps.len(),
+	ensures ({
+		let j = last_member_at(steps, n);
+		||| (j == -1 && forall|k: int| 0 <= k < n ==> !(#[trigger] steps[k] is Member))
+		||| (0 <= j < n && steps[j] is Member && forall|k: int| j < k < n ==> !(#[trigger] steps[k] is Member))
+	}),
+	decreases n
+{
+	if n > 0 { lemma_last_member_char(steps, n - 1); }
 }
